@@ -27,6 +27,8 @@ def shards(tier, seed):
     for i in range(parts):
         out.append(("small_%d" % i, dict(kind="small", lo=2, hi=top, part=i, parts=parts)))
     out.append(("curvevals", dict(kind="curvevals", reps=1 if q else 6)))
+    out.append(("pyopt_small", dict(kind="small", lo=2, hi=120, part=0, parts=2, _pyopt=True)))
+    out.append(("pyopt_det_SECP160r1", dict(kind="det", cname="SECP160r1", count=3, _pyopt=True)))
     for i in range(4 if q else 16):
         out.append(("randorders_%d" % i, dict(kind="rand", count=60 if q else 400)))
     for c in lib.pick_curves(tier, seed, extra=12):
